@@ -516,7 +516,7 @@ impl Engine for C11 {
     }
     fn runs(&self, quick: bool) -> u64 {
         if quick {
-            1_500
+            3_000
         } else {
             60_000
         }
